@@ -452,11 +452,11 @@ theorem c31_judge_attempt_sound (j j' : J) (m uid node sess : Nat) (term : Bool)
             refine ⟨by simpa using hexp, by simpa using hterm, by omega, by omega⟩
 
 example : (runJ { world := [(1, [(1, 11)])], retryMax := 2 }
-    [.msg 1001 1 1 1 0 0 0, .msg 1002 1 2 1 0 0 0, .pres 1002 0 true [1], .pres 1001 0 true [1], .write 1002 1 1 11 1, .write 1001 1 1 11 1]).toBool = false := by
+    [.msg 1001 1 1 1 0 0 0 [1], .msg 1002 1 2 1 0 0 0 [1], .pres 1002 0 true [1], .pres 1001 0 true [1], .write 1002 1 1 11 1, .write 1001 1 1 11 1]).toBool = false := by
   decide
 example : (runJ { world := [(1, [(1, 11)])], retryMax := 2 }
-    [.msg 1001 1 1 1 0 0 0, .pres 1001 0 true [1], .write 1001 1 1 11 2, .write 1001 1 1 11 1]).toBool = true := by decide
+    [.msg 1001 1 1 1 0 0 0 [1], .pres 1001 0 true [1], .write 1001 1 1 11 2, .write 1001 1 1 11 1]).toBool = true := by decide
 example : (runJ { world := [(1, [(1, 11)])], retryMax := 2 }
-    [.msg 1001 1 1 1 0 0 0, .pres 1001 0 true [1], .write 1001 1 1 11 1, .write 1001 1 1 11 1]).toBool = false := by decide
+    [.msg 1001 1 1 1 0 0 0 [1], .pres 1001 0 true [1], .write 1001 1 1 11 1, .write 1001 1 1 11 1]).toBool = false := by decide
 
 end WK.C31
